@@ -536,6 +536,10 @@ func runC01(c *Ctx) {
 	c10R4(c)
 	c15QueryFilter(c)
 
+	// R8 the accelerated client: order, non-overlapping batches, diversity counting (shared with C16.R5)
+	c.Rule("R8")
+	c16R5(c)
+
 	// R7 published events mirror the state update and are delivered, not dropped
 	c.Rule("R7")
 	{
@@ -714,6 +718,47 @@ func c15QueryFilter(c *Ctx) {
 				}
 			}
 			return "", false, false
+		}
+		// the filter judges the peer on the address list that is then stored: the response's
+		// addresses merged with what the peerstore already knows (a peer the node can reach
+		// through a known address must not be dropped because this response omitted it)
+		for _, fc := range f.Calls("field:dht.IpfsDHT.queryPeerFilter") {
+			okArg := false
+			if len(fc.Args) == 2 {
+				if cl, isCL := eng.Unparen(fc.Args[1]).(*ast.CompositeLit); isCL {
+					for _, el := range cl.Elts {
+						kv, isKV := el.(*ast.KeyValueExpr)
+						if !isKV || eng.NameOf(kv.Key.(*ast.Ident)) != "Addrs" {
+							continue
+						}
+						ao := eng.ObjOf(info, kv.Value)
+						for _, ma := range f.Calls("(*dht.IpfsDHT).maybeAddAddrs") {
+							if ao != nil && len(ma.Args) >= 2 && eng.IsObj(info, ma.Args[1], ao) {
+								// and that list includes the peerstore's addresses
+								for _, d := range f.AssignedFrom(ao) {
+									merged := false
+									ast.Inspect(defOrNil(d), func(x ast.Node) bool {
+										if se, isSel := x.(*ast.SelectorExpr); isSel && eng.NameOf(se.Sel) == "Addrs" {
+											if do := eng.ObjOf(info, se.X); do != nil {
+												for _, dd := range f.AssignedFrom(do) {
+													if _, isPS := eng.IsCallTo(info, defOrNil(dd), "(github.com/libp2p/go-libp2p/core/peerstore.PeerMetadata).Get", "(github.com/libp2p/go-libp2p/core/peerstore.Peerstore).PeerInfo", "(github.com/libp2p/go-libp2p/core/peerstore.AddrBook).Addrs"); isPS {
+														merged = true
+													}
+												}
+											}
+										}
+										return true
+									})
+									if merged {
+										okArg = true
+									}
+								}
+							}
+						}
+					}
+				}
+			}
+			c.Check(K(f.Name, "filter sees merged addresses"), fc.Pos(), okArg, "the query filter is applied to {ID, response addresses + peerstore addresses}, the same list maybeAddAddrs stores", "the filter's argument is not AddrInfo{ID, <merged list handed to maybeAddAddrs>}")
 		}
 		ok := cf.ImpliedAt(cf.LocOf(as), at, []string{"filter", "isTarget"}, func(v map[string]bool) bool { return v["filter"] || v["isTarget"] })
 		c.Check(K(f.Name, "response peer behind query filter"), as.Pos(), ok, "a response peer is followed only if it passes the query filter or is the lookup target", "append not guarded by `isTarget || queryPeerFilter(...)`")
